@@ -378,6 +378,7 @@ func checkC05(r *Report, known []Finding) {
 		r.Sample(map[string]any{"pattern": k.pat, "haystack": k.unit + "^n", "api": k.api, "strategy": k.strat, "work_by_n": series[k]})
 	}
 	r.Extra["timeouts"] = timeouts
+	c05DigitBudgetTie(r) // the candidate budget of UseDigitPrefilter: scans of the model's trace == Stats(), cost <= 35·(|h|−at) + 4096
 	replayKnownExamples(r, known, "C05")
 }
 
